@@ -345,6 +345,43 @@ def guard_equal_len(a, facts, bi, param_term):
     return None
 
 
+_UWIDTH = {'u8': 8, 'u16': 16, 'u32': 32, 'u64': 64, 'usize': 64}
+
+
+def unwrap_casts(t):
+    while t[0] == 'cast' and t[1] == 'IntToInt':
+        t = t[3]
+    return t
+
+
+def len_assert_of(a, bi, param):
+    """N if block bi is dominated by the `equal` edge of a test len(param) == N"""
+    for b2 in a.cfg.reach:
+        t2 = a.body.blocks[b2]['term']
+        if t2['k'] != 'switch':
+            continue
+        d = strip_sites(a.val_op(t2['discr'], a.term_point(b2)))
+        if d[0] == 'bin' and d[1] in ('Eq', 'Ne'):
+            x, y = unref(d[2]), unref(d[3])
+            xs = [x, y]
+            vals = []
+            for v in xs:
+                while v[0] == 'load' and not v[2]:
+                    v = unref(v[1])
+                vals.append(v)
+            n = None
+            if vals[0] == ('len', param) and const_of(vals[1]) is not None:
+                n = const_of(vals[1])
+            elif vals[1] == ('len', param) and const_of(vals[0]) is not None:
+                n = const_of(vals[0])
+            if n is None:
+                continue
+            eq_edge = switch_edge(t2, 1 if d[1] == 'Eq' else 0)
+            if a.cfg.edge_dominates(b2, eq_edge, bi):
+                return n
+    return None
+
+
 def len_term_bounds(a, facts, t, point):
     """(lo, hi) bounds of a usize term built from lengths and constants; None if unknown. hi may be 'ISIZE' (<= isize::MAX)"""
     c = const_of(t)
@@ -371,6 +408,35 @@ def len_term_bounds(a, facts, t, point):
         v = size_of_term(facts, t)
         if v is not None:
             return v, v
+    if t[0] == 'field':
+        # the position handed out by enumerate() / a 0..len range: 0 <= i < len of every buffer the loop runs over
+        from .aeadctx import _payload_path, _iter_layout
+        pth, nx = _payload_path(t)
+        lay = _iter_layout(a, nx) if nx is not None else None
+        if lay is not None and lay[0].get(pth) == ('index',) and lay[1]:
+            his = []
+            for d_ in lay[1]:
+                n = ref_len(a, facts, d_, point)
+                b = sym_bounds(facts, n) if n is not None else None
+                if b and isinstance(b[1], int):
+                    his.append(b[1])
+                elif d_[0] == 'param' and point not in (None, 'entry'):
+                    n2 = len_assert_of(a, point[0], d_)
+                    if n2 is not None:
+                        his.append(n2)
+            if his and min(his) >= 1:
+                return 0, min(his) - 1
+        return None
+    if t[0] == 'cast' and t[1] == 'IntToInt' and t[2] in _UWIDTH:
+        b = len_term_bounds(a, facts, t[3], point)
+        if b and isinstance(b[1], int) and b[1] < (1 << _UWIDTH[t[2]]):
+            return b
+        return None
+    if t[0] == 'bin' and t[1] == 'Mul':
+        x, y = len_term_bounds(a, facts, t[2], point), len_term_bounds(a, facts, t[3], point)
+        if x and y and all(isinstance(v, int) for v in x + y):
+            return x[0] * y[0], x[1] * y[1]
+        return None
     if t[0] == 'bin' and t[1] in ('Add', 'Sub'):
         x, y = len_term_bounds(a, facts, t[2], point), len_term_bounds(a, facts, t[3], point)
         if x is None or y is None:
@@ -516,6 +582,20 @@ class Discharger:
                 # cond = Lt(k as u32, width)
                 if cond[0] == 'bin' and cond[1] == 'Lt' and const_of(cond[2]) == k and const_of(cond[3]) is not None and k < const_of(cond[3]):
                     return 'D1', 'constant shift %d < %d' % (k, const_of(cond[3]))
+            if k is None and amt is not None:
+                # a shift amount computed from a loop position: bounded below the operand's width
+                cond = a.val_op(t['cond'], p)
+                ab = len_term_bounds(a, facts, amt, p)
+                if ab and isinstance(ab[1], int) and cond[0] == 'bin' and cond[1] == 'Lt' and const_of(cond[3]) is not None and ab[1] < const_of(cond[3]) \
+                        and strip_sites(unwrap_casts(cond[2])) == strip_sites(unwrap_casts(amt)):
+                    return 'D7', 'shift amount in [%d, %d] < %d' % (ab[0], ab[1], const_of(cond[3]))
+            return None
+        if kind == 'assert:overflow:Mul':
+            l, r = a.val_op(t['ops'][0], p), a.val_op(t['ops'][1], p)
+            lb, rb = len_term_bounds(a, facts, l, p), len_term_bounds(a, facts, r, p)
+            ty = l[1] if l[0] == 'const' else (r[1] if r[0] == 'const' else None)
+            if lb and rb and isinstance(lb[1], int) and isinstance(rb[1], int) and ty in _UWIDTH and lb[1] * rb[1] < (1 << _UWIDTH[ty]):
+                return 'D7', 'product of bounded factors <= %d' % (lb[1] * rb[1])
             return None
         if kind == 'assert:bounds':
             ln, idx = a.val_op(t['ops'][0], p), a.val_op(t['ops'][1], p)
@@ -530,6 +610,8 @@ class Discharger:
                     n_drv = [ref_len(a, facts, d_, p) for d_ in lay[1]]
                     if n_idx is not None and n_drv and all(x == n_idx for x in n_drv):
                         return 'D3', 'index runs over a buffer of the same type-level length %s' % (n_idx,)
+                    if lay[1] and all(strip_sites(d_) == strip_sites(ln[1]) for d_ in lay[1]):
+                        return 'D3', 'index runs over 0..len of the very slice that is indexed'
                 return None
             if const_of(ln) is not None and i < const_of(ln):
                 return 'D1', 'constant index %d < array length %d' % (i, const_of(ln))
@@ -622,31 +704,7 @@ class Discharger:
         return None
 
     def len_assert(self, a, bi, param):
-        """N if block bi is dominated by the `equal` edge of a test len(param) == N"""
-        for b2 in a.cfg.reach:
-            t2 = a.body.blocks[b2]['term']
-            if t2['k'] != 'switch':
-                continue
-            d = strip_sites(a.val_op(t2['discr'], a.term_point(b2)))
-            if d[0] == 'bin' and d[1] in ('Eq', 'Ne'):
-                x, y = unref(d[2]), unref(d[3])
-                xs = [x, y]
-                vals = []
-                for v in xs:
-                    while v[0] == 'load' and not v[2]:
-                        v = unref(v[1])
-                    vals.append(v)
-                n = None
-                if vals[0] == ('len', param) and const_of(vals[1]) is not None:
-                    n = const_of(vals[1])
-                elif vals[1] == ('len', param) and const_of(vals[0]) is not None:
-                    n = const_of(vals[0])
-                if n is None:
-                    continue
-                eq_edge = switch_edge(t2, 1 if d[1] == 'Eq' else 0)
-                if a.cfg.edge_dominates(b2, eq_edge, bi):
-                    return n
-        return None
+        return len_assert_of(a, bi, param)
 
     def d_len_assert(self, key, a, s):
         """assert_eq!(buf.len(), N) in an encoder: every caller passes a slice of statically known length N"""
